@@ -5,7 +5,9 @@ from units import k27_gate
 
 LEVEL = "other"
 EXPLANATION = (
-    "PROVED by CBMC (loop-free regions, DFCC): the input-validation block of each of the four demo mains, extracted "
+    "PROVED by CBMC (loop-free, every flag valuation): between the gate and the weight report, mcb-dimacs and approx-mcb-dimacs call exactly ONE library entry point - "
+    "the one the flags select - never leave main before it (the approximate demo only for k <= 1, before any call), and print as 'MCB weight' exactly the value that call "
+    "returned (K27b).  PROVED by CBMC (loop-free regions, DFCC): the input-validation block of each of the four demo mains, extracted "
     "between fclose(fp) and the start of the algorithm phase, with the three predicates as unconstrained booleans "
     "and a symbolic rank: any predicate true => the block returns EXIT_FAILURE on EVERY rank before the algorithm "
     "phase, rank 0 prints a diagnostic; a valid graph passes on every rank.  BOUNDED stand-in for the contract of "
